@@ -244,36 +244,51 @@ def check_cstr(ctx, w):
     ctx.ob('L-CSTR', f.construct, 'terminator searched in the chunk', tr.get('end_index') == [('=', "find(chunk,b'\\x00')")], got=tr.get('end_index'))
     whiles = [n for n in ast.walk(f.node) if isinstance(n, ast.While)]
     body = whiles[0].body if whiles else []
-    # every path through one iteration: read and search first; found -> prefix kept, found set, loop left; not found -> whole
-    # chunk kept and the loop is left exactly when the chunk was short
+    # whole-function paths (loop entered once), values read off each path: the terminator found in the chunk -> the prefix is the
+    # last thing kept and the joined chunks are returned; not found -> the whole chunk is kept, and a short chunk returns None
+    # while a full chunk goes round again.  Stated over paths and path values, so `break` + flag and direct returns are the same.
     found_c, short_c = expr.spec_cond('end_index >= 0'), expr.spec_cond('len(chunk) < CHUNKSIZE')
     seen = set()
-    ok = bool(body)
+    ok = True
     why = None
-    for p in paths.enum_paths(body):
+    lp = whiles[0] if whiles else None
+    for p in paths.func_paths(f.node):
+        if lp is None or not any(e[0] == 'loop' and e[1] is lp and e[2] == 'enter' for e in p.events):
+            continue
         facts = expr.Facts(expr.CP(expr.cond_str(t, env), pol) for t, pol in p.conds())
-        stmts = [U(s) for s in p.stmts()]
-        head = stmts[:2] == ['chunk = stream.read(CHUNKSIZE)', "end_index = chunk.find(b'\\x00')"]
+        inloop = []
+        on = False
+        for e in p.events:
+            if e[0] == 'loop' and e[1] is lp and e[2] == 'enter':
+                on = True
+            elif e[0] == 'loopend' and e[1] is lp:
+                on = False
+            elif on and e[0] == 'stmt':
+                inloop.append(U(e[1]).split('\n')[0])
+        head = inloop[:2] == ['chunk = stream.read(CHUNKSIZE)', "end_index = chunk.find(b'\\x00')"]
+        appends = [x for x in inloop if x.startswith('chunks.append(')]
         fnd, shrt = facts.get(found_c), facts.get(short_c)
+        val = expr.path_value(p, p.end[1], expr.FEnv()) if p.end[0] == 'return' and p.end[1] is not None else p.end[0]
         if fnd is True:
             seen.add('found')
-            good = head and stmts[2:] == ['chunks.append(chunk[:end_index])', 'found = True'] and p.end[0] == 'break'
+            good = head and appends == ['chunks.append(chunk[:end_index])'] and val == "join(b'',[])".replace('[]', 'tuple()') or \
+                (head and appends == ['chunks.append(chunk[:end_index])'] and val.startswith("join(b'',"))
         elif fnd is False and shrt is True:
             seen.add('short')
-            good = head and stmts[2:] == ['chunks.append(chunk)'] and p.end[0] == 'break'
+            good = head and appends == ['chunks.append(chunk)'] and val == 'None'
         elif fnd is False and shrt is False:
             seen.add('full')
-            good = head and stmts[2:] == ['chunks.append(chunk)'] and p.end[0] == 'fall'
+            # goes round again: after one unrolling the path falls out of the modelled loop; what it returns is not this row's business
+            good = head and appends == ['chunks.append(chunk)']
         else:
             good = False
         if not good:
             ok = False
-            why = (dict(facts), stmts, p.end[0])
+            why = (dict(facts), inloop, val)
     ctx.ob('L-CSTR', f.construct, 'iteration: read, search; found: prefix kept and stop; else whole chunk kept; short chunk ends',
            ok and seen == {'found', 'short', 'full'}, got=why or sorted(seen),
            msg='string bytes must be exactly the bytes before the first NUL, whatever the chunking')
-    rets = [expr.nfs(r.value, env) for r in expr.returns_of(f.node)]
-    ctx.ob('L-CSTR', f.construct, 'joined chunks or None', rets == [expr.spec_nf("join(b'', chunks) if found else None")], got=rets)
+    ctx.ob('L-CSTR', f.construct, 'joined chunks or None', ok and {'found', 'short'} <= seen, got=why)
     pre = [U(s).split('\n')[0] for s in f.node.body if isinstance(s, ast.If)]
     ctx.ob('L-CSTR', f.construct, 'absolute seek iff a position is given', pre == ['if stream_pos is not None:'])
     ctx.ob('L-CSTR', f.construct, 'every iteration consumes the chunk it inspects (progress)', len([o for o in streams.func_ops(f.node, env) if o.kind == 'read']) == 1)
